@@ -183,8 +183,9 @@ def main():
     # self-test of the binding: one corrupted record must be rejected
     probe = [dict(r) for r in recs[:50]]
     if not a.replay_case:
-        victim = next(i for i, r in enumerate(probe) if r['op'] == 'children' and r['res'])
-        probe[victim] = dict(probe[victim], res=probe[victim]['res'][:-1])
+        # (whatever the implementation answered: the probe must not depend on the answers being right)
+        victim = next(i for i, r in enumerate(probe) if r['op'] == 'children')
+        probe[victim] = dict(probe[victim], res=(probe[victim]['res'][:-1] if probe[victim]['res'] else ['CORE', 'PITCH']))
         pv, _ = tlc.validate_traces('Trace_Categories', [probe], shards=1)
         if pv[0].accepted or [victim + 1, 'children'] not in pv[0].fails:
             raise MachineryError('binding self-test failed: a corrupted record was accepted')
